@@ -155,9 +155,9 @@ def build(cs, n):
     checks.append(("define", C))
     if op == "construct":
         for k in all_reads(C):
-            stmts.append(access(C, k)); checks.append(("read", k, "exact", C))
+            stmts.append(access(C, k)); checks.append(("read", k, "exact", C, None))
     elif op == "read":
-        stmts.append(access(C, cs["key"])); checks.append(("read", cs["key"], cs["exp"], C))
+        stmts.append(access(C, cs["key"])); checks.append(("read", cs["key"], cs["exp"], C, cs["res"]))
     elif op == "write":
         stmts.append(f"{access(C, cs['key'])} = {source(cs['src'])}")
         checks.append(("write", cs["exp"], C, cs["post"]))
@@ -308,13 +308,15 @@ def judge(rep, cs, n, stmts, checks, resp, oc, tally):
             currow = R0; continue
         # ---- the scenario statement and its read-backs
         if kind == "read":
-            _, key, exp, base = chk
-            want = component(base, key)
+            _, key, exp, base, res = chk
+            # one read scenario: the model's result; the reads of the "construct" scenario: the component of the model value (ConstructRead)
+            want = ('val', con_value(res), con_kind(res)) if res is not None and res["c"] in ("sc", "col", "rec") else component(base, key)
             if gv != con_value(base) or gk != con_kind(base):
                 fail("read-changes-store", f"changed the variable to {show(gv)} <{gk}>", j); return False
             if exp == "exact":
-                if not ok: fail("rejected", f"rejected ({err}), expected {show(want[1])}", j); return False
+                if not ok: fail("rejected", f"rejected ({err}), expected {show(want[1]) if want[0] == 'val' else 'a value'}", j); return False
                 got = observed(ev["v"])
+                if want[0] != 'val': fail("value", f"= {show(got)}, but the model has no such component", j); return False
                 if got != want[1]:
                     fail("value", f"= {show(got)}, expected {show(want[1])}", j); return False
                 if ev.get("k") != want[2]:
@@ -369,6 +371,36 @@ def judge(rep, cs, n, stmts, checks, resp, oc, tally):
         raise ValueError(kind)
     return ok_all
 
+class _Scratch:
+    def __init__(self): self.n = 0
+    def fail(self, *a): self.n += 1
+
+def negative_controls(chunk, built, outs, off, limit=60):
+    """the comparison is not vacuous: a passing case judged against a deliberately wrong expectation (one token of the
+    expected result / post-state changed, or the expectation class inverted) must be reported.  -> (tried, caught)"""
+    import copy
+    tried = caught = 0
+    per = collections.Counter()
+    for i, (cs, (stmts, checks), (resp, oc)) in enumerate(zip(chunk, built, outs)):
+        if tried >= limit: break
+        kind = (cs["C"]["c"], cs["op"], cs["exp"])
+        if oc != "ok" or per[kind] >= 3 or cs["op"] in ("construct", "dup"): continue
+        s0 = _Scratch()
+        if not judge(s0, cs, off + i, stmts, checks, resp, oc, collections.Counter()) or s0.n: continue
+        m = copy.deepcopy(cs)
+        def bump(v): v["t"] = (1 - v["t"]) if v["k"] == "bool" else v["t"] + 1
+        if cs["exp"] == "exact" and cs["op"] == "read": bump(m["res"]["rows"][-1][-1])
+        elif cs["exp"] == "exact" and cs["op"] in ("write", "rowset"): bump(m["post"]["rows"][-1][0])
+        elif cs["exp"] in ("reject", "absent"): m["exp"] = "exact"
+        else: continue
+        st2, ch2 = build(m, off + i)
+        if st2 != stmts: continue
+        per[kind] += 1; tried += 1
+        s1 = _Scratch()
+        judge(s1, m, off + i, st2, ch2, resp, oc, collections.Counter())
+        if s1.n: caught += 1
+    return tried, caught
+
 def run(rep, tier, seed):
     quick = tier == "quick"
     cfg = "MC_G02_quick.cfg" if quick else "MC_G02_thorough.cfg"
@@ -378,7 +410,7 @@ def run(rep, tier, seed):
     cases = t.cases
     cases.sort(key=lambda c: (c["sig"], str(c["C"]), c["mut"], str(c["src"]), c["row"]))
     log(f"[G02] TLC: {t.generated} states, {t.distinct} distinct, {len(cases)} cases in {t.wall:.1f}s")
-    tally = collections.Counter(); nsess = 0; samples = []; passed = 0
+    tally = collections.Counter(); nsess = 0; samples = []; passed = 0; neg_tried = neg_caught = 0
     CH = 20000
     for off in range(0, len(cases), CH):
         chunk = cases[off:off + CH]
@@ -388,6 +420,10 @@ def run(rep, tier, seed):
         for i, (cs, (stmts, checks), (resp, oc)) in enumerate(zip(chunk, built, outs)):
             if judge(rep, cs, off + i, stmts, checks, resp, oc, tally): passed += 1
         nsess += len(chunk)
+        if off == 0:
+            neg_tried, neg_caught = negative_controls(chunk, built, outs, off)
+            if neg_tried == 0 or neg_caught != neg_tried:
+                rep.fail("G02/negative-control", f"only {neg_caught} of {neg_tried} deliberately wrong expectations were reported", {})
         step = max(1, len(chunk) // 6)
         samples += [{"sig": cs["sig"], "exp": cs["exp"], "stmts": b[0],
                      "observed": [(s.get("r"), s.get("k")) for s in (o[0] or {}).get("steps", [])] if o[1] == "ok" else o[1]}
@@ -401,7 +437,7 @@ def run(rep, tier, seed):
                     "statements_checked": tally["statements"], "exact_matched": tally["exact"], "rejects_matched": tally["reject"],
                     "absent_matched": tally["absent"], "absent_as_error": tally["absent_as_error"], "absent_as_none": tally["absent_as_none"],
                     "free_outcomes": tally["free"], "free_accepted": tally["free_accepted"], "free_rejected": tally["free_rejected"],
-                    "exhaustive": True,
+                    "negative_controls_tried": neg_tried, "negative_controls_passed": neg_caught, "exhaustive": True,
                     "rule": "every container (record / tuple / map / table; component kinds from f64, string, bool, u8; sizes and key orders per "
                             "the cfg) x every scenario (construct + read every component; read one valid / invalid key on an immutable and a mutable "
                             "variable; update one valid / invalid key with a fresh / the same / another component's / another kind's value, tables: whole "
